@@ -98,6 +98,13 @@ def run(cx):
             g1 = cx.guarded(b, s.bb, f'(le 0.0 (field 1 (unwrap {IR})))', True)
             g2 = cx.guarded(b, s.bb, f'(le (field 1 (unwrap {IR})) 1.0)', True)
             ok = ok and g1 is not None and g2 is not None
+        if not ok:
+            # the same test behind Option combinators: intersect_rays(..).filter(|(_, t_edge)| (0.0..=1.0).contains(t_edge)).map(|(t_ray, _)| t_ray)
+            e = match(f'(call Option::map (call Option::filter {IR} $f) $m)', cx.retval(b))
+            if e is not None and e['f'][0] == 'closure' and e['m'][0] == 'closure':
+                fb, mb = cx.closure_body(e['f'][1]), cx.closure_body(e['m'][1])
+                ok = fb is not None and mb is not None and match('(call RangeInclusive::contains (call RangeInclusive::new 0.0 1.0) (field 1 (param 2)))', cx.retval(fb)) is not None and \
+                    match('(field 0 (param 2))', cx.retval(mb)) is not None
         cx.ob('GUARD', 'ray_intersect_with_edge', ok,
               'Some(t_ray) exactly under 0 <= t_edge <= 1 (closed), where (t_ray, t_edge) = intersect_rays(query ray, Ray(v[i], v[i+1]-v[i])) in this order', where=b.file)
     b = cx.fn('geom2::line2::intersect_rays')
